@@ -162,6 +162,9 @@ func c18Sessions(w *vfWorld) map[string][]*http.Cookie {
 		"password": {w.vfCookie("alice", AuthTypePassword)},
 		"full":     {w.vfCookie("alice", AuthTypePassword|AuthTypeTOTP|AuthTypeU2F)},
 		"admin":    {w.vfCookie("admin", AuthTypePassword|AuthTypeTOTP|AuthTypeU2F)},
+		// an administrator who satisfied the web UI without a hardware token: the pages
+		// then show other users' data read-only, with their own explanatory texts
+		"admin-totp": {w.vfCookie("admin", AuthTypePassword|AuthTypeTOTP)},
 	}
 }
 
@@ -224,7 +227,7 @@ func init() {
 	vfRegister(&vfeng.Check{
 		ID:    "C18",
 		Level: "model_checking",
-		Rule:  "exhaustive product route (extracted from main()) x session kind x method x request-controlled field (every form field any handler reads, path suffix, raw query, headers, cookies, absolute-form authority, Host, and the session's own user name) x canary payload on the real handlers; every text/html response is parsed with golang.org/x/net/html and must contain no canary-named element or attribute; class = (route, html/non-html status, reflected inert/no)",
+		Rule:  "exhaustive product route (extracted from main()) x session kind (none, password, full, administrator with and without hardware token) x method x request-controlled field (every form field any handler reads, path suffix, raw query, headers, cookies, absolute-form authority, Host, and the session's own user name) x canary payload on the real handlers; every text/html response is parsed with golang.org/x/net/html and must contain no canary-named element or attribute; class = (route, html/non-html status, reflected inert/no)",
 		Assumptions: []string{"an HTML5 parser (x/net/html) stands for the browser's parser", "stored fields are limited to what the real input filters admit (checked by attempting to store payloads through the real admin handlers)"},
 		Bounds: func(tier string) map[string]interface{} {
 			return map[string]interface{}{"payloads": len(c18Payloads()), "fields": len(c18Fields()) + 11}
@@ -241,9 +244,12 @@ func init() {
 			i, n := 0, 0
 			for _, rt := range w.routes {
 				path := rt.Pattern
-				for _, sname := range []string{"none", "password", "full", "admin"} {
+				for _, sname := range []string{"none", "password", "full", "admin", "admin-totp"} {
 					for _, method := range []string{"GET", "POST"} {
 						for _, f := range allFields {
+							if sname == "admin-totp" && !(f == "@path" || f == "@rawpath" || f == "user" || f == "username" || f == "@rawquery") {
+								continue // the fields that name another user
+							}
 							for _, pl := range payloads {
 								n++
 								i++
